@@ -43,6 +43,7 @@ func steps(o *kernel.Outcome, tape *kernel.Tape, n int, do func(i int, ch *kerne
 		if o.Spec.KeepSet && !slices.Contains(o.Spec.Keep, i) {
 			continue
 		}
+		kernel.Tick()
 		desc := do(i, tape.Sub(fmt.Sprintf("step:%d", i)))
 		o.StepIDs = append(o.StepIDs, i)
 		o.Trace = append(o.Trace, fmt.Sprintf("%d:%s", i, desc))
